@@ -60,6 +60,37 @@ def run(ctx):
                 if re.search(r"core::slice::raw::from_raw_parts|core::ptr::(read|write|copy)|::get_unchecked", c[0]) and not c[3]:
                     bad.append((f.name, c[0]))
     ctx.ob("wasmi|no-raw-memory-ops", not bad, f"raw memory operations in vm::wasm::wasmi: {bad or 'none'}")
+    ctx.rule("argument flow: every `*_ptr` / `*_len` u32 parameter of a wasmi host function is consumed only by read_memory / write_memory "
+             "(never used in other arithmetic or passed to another callee)")
+    n_params, n_bad = 0, []
+    for f in F.fns.values():
+        if f.mod != W or f.kind != "Fn" or f.parent:
+            continue
+        b = ctx.body(f.name)
+        if not b.locals or len(b.locals) < 2 or "Caller" not in b.locals[1][0]:
+            continue
+        ptrs = [i for i in range(1, b.argc + 1) if b.locals[i][0] == "u32" and len(b.locals[i]) > 1 and re.search(r"(_ptr|_len)$", b.locals[i][1])]
+        for pi in ptrs:
+            n_params += 1
+            sinks = set()
+            for bb, t in b.calls(None):
+                for a in t["args"]:
+                    at = b.origins(a)
+                    if any(x.kind == "param" and x.what == pi for x in at):
+                        sinks.add(t["f"])
+            other = False
+            for i in range(b.n):
+                for st in b.stmts(i):
+                    rv = st["rv"] if st["k"] == "=" else {}
+                    if rv.get("k") in ("bin", "cast"):
+                        ops = [rv.get("a"), rv.get("b"), rv.get("o")]
+                        if any(o and o[0] != "k" and any(x.kind == "param" and x.what == pi for x in b.origins(o)) for o in ops):
+                            other = True
+            good = bool(sinks) and all(re.search(re.escape(W) + r"::(read_memory|write_memory|read_slice)$", x) for x in sinks) and not other
+            if not good:
+                n_bad.append((f.name.split("::")[-1], b.locals[pi][1], sorted(x.split("::")[-1] for x in sinks), other))
+    ctx.floor("host-pointer-params", n_params, 60)
+    ctx.ob("host-functions|pointer-params-only-reach-checked-helpers", not n_bad, f"{n_params} pointer/length parameters examined; offenders: {n_bad or 'none'}")
     rm = who_calls(F, re.escape(W) + r"::(read_memory|write_memory|read_slice)$")
     ctx.floor("host-functions-using-helpers", len(rm), 30)
     ctx.assume("64-bit usize (sum of two u32-derived usize values cannot overflow); wasmi's Memory::write is itself bounds-checked (trusted)")
